@@ -75,6 +75,18 @@ def t_token_ja(t, exclude=''):
             'pos2': val(), 'pos3': val(), 'inflectionForm': val(), 'inflectionType': val(), 'reading': val()}
 
 
+def t_token_variant(t, system, exclude=''):
+    """attribute sets met in practice: the annotators' full set, word+pos (POS-tagged input),
+    or a bare word (trees built with Tree.make_terminal(word, cat) or read from PTB / bank files)"""
+    full = (t_token_ja if system == 'ja' else t_token_en)(t, exclude)
+    k = t.weighted([(5, 'full'), (2, 'bare'), (2, 'word+pos')])
+    if k == 'bare':
+        return {'word': full['word']}
+    if k == 'word+pos':
+        return {'word': full['word'], 'pos': full['pos']}
+    return full
+
+
 def make_token(d):
     from depccg.types import Token
     return Token(**d)
